@@ -17,7 +17,7 @@ for P in "$ROOT"/drills/*${PAT}*.patch; do
   OUT=$("$ROOT/check" "$PROP" quick 2>&1); RC=$?
   git -C /repo checkout -- . 
   if [ $RC -eq 1 ]; then
-    echo "drill $NAME: detected ($(echo "$OUT" | grep -m1 'kind=' | sed 's/ ::.*//' | xargs))"
+    echo "drill $NAME: detected ($(echo "$OUT" | grep -v '^KNOWN-FINDING' | grep -m1 'kind=' | sed 's/ ::.*//' | xargs))"
   else
     echo "drill $NAME: NOT DETECTED (exit $RC)"; FAIL=1
   fi
